@@ -178,7 +178,7 @@ fn fixed_case(seed: u64, i: u64, per_prog: u64, max_len: u32) -> CaseOut {
     let alpha = alphabet(p.origin, &p.bps);
     let cmds = nth_script(i % per_prog, &alpha, max_len);
     let lines = script_lines(&cmds, seed ^ i);
-    let sep = if (i ^ seed) % 3 == 0 { ";" } else { "\n" };
+    let sep = match (i ^ seed) % 4 { 0 => ";", 1 => "mix", _ => "\n" };
     out.class("fixed");
     out.class(if p.stack { "stack_on" } else { "stack_off" });
     let checked = run_and_verify(&mut out, "C10", i, p.src, p.stack, &cmds, &lines, sep, p.input, false, p.breaks);
@@ -274,7 +274,7 @@ fn random_case(seed: u64, i: u64) -> CaseOut {
     let text = render(&built.program, &lay, &mut rng).text;
     let cmds = random_script(&mut rng, img.origin(), img.words.len() as u16, stack, 10);
     let lines = script_lines(&cmds, seed ^ i);
-    let sep = if rng.chance(1, 3) { ";" } else { "\n" };
+    let sep = *rng.pick(&[";", "\n", "\n", "mix"]);
     out.class("random");
     out.class(if stack { "stack_on" } else { "stack_off" });
     let checked = run_and_verify(&mut out, "C10", i, &text, stack, &cmds, &lines, sep, &built.input, false, &img.breaks);
